@@ -13,6 +13,26 @@ import (
 	"golang.org/x/tools/go/ssa/ssautil"
 )
 
+// allRepoFunctionsRaw: every function with a body in the repository packages, closures included.
+func (e *Engine) allRepoFunctionsRaw() []*ssa.Function {
+	var out []*ssa.Function
+	for fn := range ssautil.AllFunctions(e.prog) {
+		if fn.Blocks == nil || fn.Synthetic != "" {
+			continue
+		}
+		root := fn
+		for root.Parent() != nil {
+			root = root.Parent()
+		}
+		if root.Pkg == nil || !e.repoPkgs[root.Pkg.Pkg.Path()] {
+			continue
+		}
+		out = append(out, fn)
+	}
+	sort.Slice(out, func(i, j int) bool { return out[i].String() < out[j].String() })
+	return out
+}
+
 func (e *Engine) allRepoFunctions() []*ssa.Function {
 	var out []*ssa.Function
 	for fn := range ssautil.AllFunctions(e.prog) {
